@@ -9,6 +9,7 @@ import (
 	"crypto/tls"
 	"errors"
 	"fmt"
+	"io"
 	"net"
 	"net/http"
 	"net/url"
@@ -51,6 +52,8 @@ type rig struct {
 	Targets     map[string]*vnet.Conn // harness end of the pipe handed out by Outbound.TCP, per address
 	RelayEnds   map[string]*vnet.Conn // the end given to the server, per address
 	TargetBuf   int
+	// TCPLikeTarget: Outbound.TCP returns a connection with net.TCPConn's ReadFrom/WriteTo
+	TCPLikeTarget bool
 	UDPSocks    []*rigUDPConn
 	TrafficVeto func(n int, id string, tx, rx uint64) bool // n = 1-based LogTraffic call; true = veto
 	trafficN    int
@@ -96,7 +99,33 @@ func (o rigOutbound) TCP(reqAddr string) (net.Conn, error) {
 	srvEnd, tgtEnd := vnet.Pipe("relay>"+reqAddr, "target:"+reqAddr, buf)
 	o.r.Targets[reqAddr] = tgtEnd
 	o.r.RelayEnds[reqAddr] = srvEnd
+	if o.r.TCPLikeTarget {
+		return rigTCPLike{srvEnd}, nil
+	}
 	return srvEnd, nil
+}
+
+// rigTCPLike behaves like *net.TCPConn in the two places generic copy loops look at: it implements
+// io.ReaderFrom and io.WriterTo, and, as net.TCPConn does, wraps every error of those two calls
+// other than io.EOF in a *net.OpError. (The direct outbound hands the server real TCP connections;
+// added after the independently seeded change C15-6: io.CopyBuffer delegated to ReadFrom and the
+// logger's refusal came back wrapped.)
+type rigTCPLike struct{ *vnet.Conn }
+
+func (c rigTCPLike) ReadFrom(r io.Reader) (int64, error) {
+	n, err := io.Copy(struct{ io.Writer }{c.Conn}, r)
+	if err != nil && err != io.EOF {
+		err = &net.OpError{Op: "readfrom", Net: "tcp", Err: err}
+	}
+	return n, err
+}
+
+func (c rigTCPLike) WriteTo(w io.Writer) (int64, error) {
+	n, err := io.Copy(w, struct{ io.Reader }{c.Conn})
+	if err != nil && err != io.EOF {
+		err = &net.OpError{Op: "writeto", Net: "tcp", Err: err}
+	}
+	return n, err
 }
 
 // rigUDPConn is a scheduler-visible fake of the server's UDPConn.
